@@ -122,7 +122,8 @@ def r15f(rep, prog):
                 f = ex.f_atom('s_is_t')
                 return f if s.op == '==' else ex.f_not(f)
             if s.k == 'BinaryOperator' and s.op in ('==', '!=') and (ex.var_of(s.c[0]) == tparam or ex.var_of(s.c[1]) == tparam):
-                f = ex.f_atom('is_t')
+                ov_ = ex.var_of(s.c[1]) if ex.var_of(s.c[0]) == tparam else ex.var_of(s.c[0])
+                f = ex.f_atom('is_t' if ov_ is None else 'is_t:%s' % ov_)     # `u == t` and `w == t` are different facts
                 return f if s.op == '==' else ex.f_not(f)
             if s.k == 'BinaryOperator' and s.op in ('==', '!=') and hparam in (ex.var_of(s.c[0]), ex.var_of(s.c[1])) and \
                     0 in (s.c[0].strip_all().cv, s.c[1].strip_all().cv):
@@ -163,6 +164,9 @@ def r15f(rep, prog):
             atoms = ex.f_atoms(f)
             if 's_is_t' in atoms and not reach(f, None, s_is_t=False) and not any(reach(f, r_, s_is_t=False) for r_ in REG):
                 rep.ok('R15f', rt, fn, what, '`return true` for source == target: zero hops')
+                continue
+            if has_regions(f) and not any(reach(f, r_) for r_ in REG):
+                rep.undecided('R15f', rt, fn, what, 'the guards of this `return true` hold in no distance region as far as recognised (dead code or atoms conflated)')
                 continue
             # is the vertex found equal to the target the popped one, or a neighbour discovered from it (one hop further)?
             nb = False
